@@ -70,6 +70,7 @@ class RSocketClient(RSocketBase):
         logger().debug('%s: connecting', self._log_identifier())
         self._is_closing = False
         self._reset_internals()
+        await super().connect()  # queue SETUP first: nothing requested while connecting may precede it
         self._start_tasks()
 
         try:
@@ -82,7 +83,7 @@ class RSocketClient(RSocketBase):
             await self._on_connection_error(exception)
             return
 
-        return await super().connect()
+        return self
 
     async def _stop_tasks(self):
         await super()._stop_tasks()
